@@ -78,7 +78,7 @@ DepositedNow(pre, post, d) ==
 \* (a passed cold-storage proposal creates a transfer of its amount without taking it from anybody)
 C01Step(pre, a, post) ==
     UNION {Fail(HubLiab(post, d) - HubLiab(pre, d) > (IF a.k = "End" THEN DepositedNow(pre, post, d)
-                                                        ELSE IF a.k = "Gov" /\ a.p = "ColdStorage" /\ a.denom = d THEN a.amt ELSE 0), "C01:MintOnlyByDeposit", d)
+                                                        ELSE IF a.k = "Gov" /\ a.p = "ColdStorage" THEN SumOver(a.coins, LAMBDA cn : IF cn[1] = d THEN cn[2] ELSE 0) ELSE 0), "C01:MintOnlyByDeposit", d)
            : d \in DOMAIN pre.sup}
     \* a cold-storage transfer that expires is "refunded" to the transit account: vouchers nobody locked anything for
     \* (the transit account's balance grows by what the refund minted; every other flow through it nets to zero within a step)
